@@ -19,6 +19,8 @@ pub enum MOp {
     Remove { k: MV, v: MV },
     /// remove up to `n` existing values of the key, from the front or the back
     RemoveMany { k: MV, n: u32, back: bool },
+    /// remove the existing value of rank `rank` (mod the number of values) of the key
+    RemoveRank { k: MV, rank: u16 },
     RemoveAll { k: MV, c: Consume },
     Get { k: MV, c: Consume },
     Range { lo: Bound<MV>, hi: Bound<MV>, c: Consume, inner: Consume },
@@ -84,7 +86,7 @@ fn mm_len(cls: u8, page: usize) -> usize {
 }
 
 pub fn decode_mop(r: &mut Rec, kty: Ty, vty: Ty, cfg: &DbCfg, universe: usize, vuniverse: usize) -> MOp {
-    const W: [u32; 9] = [40, 12, 18, 6, 5, 8, 6, 2, 3];
+    const W: [u32; 10] = [40, 12, 10, 6, 5, 8, 6, 2, 3, 14];
     let page = cfg.page_size;
     let kind = r.weighted(&W);
     // value index determines its length class -> same idx is the same value
@@ -133,7 +135,11 @@ pub fn decode_mop(r: &mut Rec, kty: Ty, vty: Ty, cfg: &DbCfg, universe: usize, v
             MOp::Range { lo, hi, c, inner }
         }
         7 => MOp::Len,
-        _ => MOp::Scan,
+        8 => MOp::Scan,
+        _ => {
+            let k = genr::rec_key(r, kty, universe, page);
+            MOp::RemoveRank { k, rank: r.u16() }
+        }
     }
 }
 
@@ -308,7 +314,7 @@ pub fn mm_apply<KF: KeyFam, VF: KeyFam>(
     st.ops += 1;
     let fixed = <VF::T as redb::Value>::fixed_width();
     let before: Option<(MV, bool)> = match op {
-        MOp::Insert { k, .. } | MOp::InsertMany { k, .. } | MOp::Remove { k, .. } | MOp::RemoveMany { k, .. } | MOp::RemoveAll { k, .. } => {
+        MOp::Insert { k, .. } | MOp::InsertMany { k, .. } | MOp::Remove { k, .. } | MOp::RemoveMany { k, .. } | MOp::RemoveRank { k, .. } | MOp::RemoveAll { k, .. } => {
             Some((k.clone(), m.get(k).is_some_and(|s| needs_subtree(s, fixed, page))))
         }
         _ => None,
@@ -350,6 +356,23 @@ pub fn mm_apply<KF: KeyFam, VF: KeyFam>(
                 if s.is_empty() {
                     m.remove(k);
                 }
+            }
+        }
+        MOp::RemoveRank { k, rank } => {
+            let vals = model_vals(m, k);
+            if !vals.is_empty() {
+                let v = vals[*rank as usize % vals.len()].clone();
+                let existed = io!(t.remove(KF::to(k), VF::to(&v)));
+                sensure!(existed, "mm-remove", "multimap remove({k:?},{v:?}) returned existed=false for a value the model holds");
+                let s = m.get_mut(k).unwrap();
+                s.remove(&v);
+                if s.is_empty() {
+                    m.remove(k);
+                }
+            } else {
+                let v = run_val(vty, 1, 1, 4);
+                let existed = io!(t.remove(KF::to(k), VF::to(&v)));
+                sensure!(!existed, "mm-remove", "multimap remove({k:?},{v:?}) returned existed=true for a key without values");
             }
         }
         MOp::RemoveAll { k, c } => {
